@@ -486,32 +486,64 @@ pub fn c14(ctx: &Ctx) -> Report {
         scheds.push(s);
     }
     let sr = &scheds;
-    par_ranges(ctx, &mut rep, scheds.len() as u64, 256, |_, lo, hi, lc| {
-        for i in lo..hi {
-            let sch = &sr[i as usize];
+    // every schedule is run twice: (0) all calls before any sample, step 0 -> 1; (1) the first call before any
+    // sample, then the processor is settled on a non-zero level, then the remaining calls, then a step 5 -> 6
+    // (a time change must neither disturb the level the output rests on nor the response that follows)
+    par_ranges(ctx, &mut rep, scheds.len() as u64 * 2, 512, |_, lo, hi, lc| {
+        for idx in lo..hi {
+            let sch = &sr[(idx / 2) as usize];
+            let variant = idx % 2;
+            if variant == 1 && sch.len() < 2 {
+                continue;
+            }
+            let (a, b) = if variant == 0 { (0.0f32, 1.0f32) } else { (5.0f32, 6.0f32) };
             let mut g = GlideProcessor::new(fs);
             let mut set = TimeSet::new();
             let mut ops: Vec<String> = Vec::new();
-            for t in sch {
+            let split = if variant == 0 { sch.len() } else { 1 };
+            for t in &sch[..split] {
                 g.set_time(*t);
                 set.request(*t);
                 ops.push(format!("set_time:{:?}", t));
             }
+            if variant == 1 {
+                let n0 = (8.0 * (set.max().min(10.0)) as f64 * fs as f64).ceil() as usize + 16;
+                for _ in 0..n0 {
+                    g.process(a);
+                }
+                ops.push(format!("process:{:?}*{}", a, n0));
+                for t in &sch[split..] {
+                    g.set_time(*t);
+                    set.request(*t);
+                    ops.push(format!("set_time:{:?}", t));
+                }
+            }
             let tmax = set.max();
             let nresp = ((tmax as f64 * fs as f64).round() as usize).max(8) + 2;
-            let resp = settle_and_step(&mut g, fs, tmax, 0.0, 1.0, nresp);
-            ops.push(format!("process:0.0*{}", (8.0 * tmax as f64 * fs as f64).ceil() as usize + 16));
-            ops.push(format!("process:1.0*{}", nresp));
+            let resp = if variant == 0 {
+                ops.push(format!("process:{:?}*{}", a, (8.0 * tmax as f64 * fs as f64).ceil() as usize + 16));
+                settle_and_step(&mut g, fs, tmax, a, b, nresp)
+            } else {
+                let mut r = Vec::with_capacity(nresp);
+                for _ in 0..nresp {
+                    r.push((g.process(b) as f64 - a as f64) / (b as f64 - a as f64));
+                }
+                r
+            };
+            ops.push(format!("process:{:?}*{}", b, nresp));
             lc.count("schedules", 1);
+            if variant == 1 {
+                lc.count("schedules_with_time_changes_on_a_settled_non_zero_level", 1);
+            }
             if set.0.len() > 1 {
                 lc.count("schedules_ending_inside_the_dead_band", 1);
             }
-            let a_rel = 2.0 * ulp32(1.0) as f64 / one_minus_p(tmax, fs);
+            let a_rel = 2.0 * ulp32(b) as f64 / one_minus_p(tmax, fs) / (b - a) as f64;
             let verdicts: Vec<Option<bool>> = set.0.iter().map(|e| criterion(*e, fs, &resp, a_rel)).collect();
             if verdicts.iter().any(|v| *v == Some(true)) {
                 lc.count("schedules_matching_an_allowed_time", 1);
             } else if verdicts.iter().all(|v| *v == Some(false)) {
-                lc.violation(viol("C14", "set-time-not-honoured", format!("after the set_time calls {:?} the step response matches none of the times the dead-band rule allows to be in effect {:?} (covered {:.4} after {:?} s)", sch, set.0, resp[((set.0[0] as f64 * fs as f64).round() as usize).clamp(1, resp.len()) - 1], set.0[0]), fs, ops));
+                lc.violation(viol("C14", "set-time-not-honoured", format!("after the set_time calls {:?} the step response {:?} -> {:?} matches none of the times the dead-band rule allows to be in effect {:?} (covered {:.4} after {:?} s)", sch, a, b, set.0, resp[((set.0[0] as f64 * fs as f64).round() as usize).clamp(1, resp.len()) - 1], set.0[0]), fs, ops));
             } else {
                 lc.count("schedules_without_quantitative_claim", 1);
             }
@@ -527,6 +559,7 @@ pub fn c14(ctx: &Ctx) -> Report {
     rep.require_nonzero("step_responses_with_100_samples_per_t");
     rep.require_nonzero("fastest_setting_responses");
     rep.require_nonzero("schedules_ending_inside_the_dead_band");
+    rep.require_nonzero("schedules_with_time_changes_on_a_settled_non_zero_level");
     rep.require_nonzero("above_10s_comparisons");
     rep.sample(json!({"fs": 1000.0, "t": 0.5, "step": [0.0, 1.0], "expected": "fraction after 500 samples >= 0.995, after 50 samples in [0.40, 0.55]"}));
     rep.sample(json!({"schedule": [0.5, 0.53, 0.56], "times_allowed_in_effect": [0.56, 0.53]}));
